@@ -98,6 +98,7 @@ func (q *TellHub[A]) CloseWithError(err error) {
 }
 
 type serveReq[A p2p.Addr] struct {
+	ctx  context.Context
 	msg  p2p.Message[A]
 	resp []byte
 	n    int
@@ -130,7 +131,13 @@ func (q *AskHub[A]) ServeAsk(ctx context.Context, fn func(context.Context, []byt
 	case <-q.closed:
 		return q.err
 	case req := <-q.reqs:
-		req.n = fn(ctx, req.resp, req.msg)
+		// The asker is committed to waiting for fn. Let fn see when the asker's context ends, so that
+		// a handler which only forwards the request (p2pmux, multiswarm) does not hold the asker forever.
+		hctx, cancel := context.WithCancel(ctx)
+		stop := context.AfterFunc(req.ctx, cancel)
+		req.n = fn(hctx, req.resp, req.msg)
+		stop()
+		cancel()
 		close(req.done)
 		return nil
 	}
@@ -138,6 +145,7 @@ func (q *AskHub[A]) ServeAsk(ctx context.Context, fn func(context.Context, []byt
 
 func (q *AskHub[A]) Deliver(ctx context.Context, respData []byte, msg p2p.Message[A]) (int, error) {
 	req := &serveReq[A]{
+		ctx:  ctx,
 		msg:  msg,
 		resp: respData,
 		done: make(chan struct{}),
